@@ -305,7 +305,12 @@ func (ex *Explorer) Branch(c *Term) bool {
 	return r
 }
 
+const maxDecisions = 20000
+
 func (ex *Explorer) branch1(c *Term) bool {
+	if len(ex.trace) > maxDecisions {
+		panic(abortPath{kind: "steps", reason: fmt.Sprintf("decision bound %d exceeded (unbounded symbolic loop?)", maxDecisions)})
+	}
 	if ex.pos < len(ex.prefix) {
 		d := ex.prefix[ex.pos]
 		if d.kind != 'B' || d.cond != c {
